@@ -184,6 +184,17 @@ reg(
     "(layouts that create such gaps are only generated in about half of the cases so that the others are judged strictly).",
 )
 
+reg(
+    "C04",
+    "reference-model monitor over recorded accepted steps (quasi-MLE / local dynamic estimate recomputed in 50 digits, rounding-aware) plus metamorphic reruns with the base scale times c (dyadic: exact arithmetic, incl. accept/reject trace equality)",
+    "Value: adaptive runs behind recording proxies (checkpoints incl. step ends); the MLE scale must equal the RMS of the "
+    "whitened residuals of all recorded steps (with the initial-constraint datum and the 1/sqrt(N) correction as configured), "
+    "the dynamic scale the per-step local estimate (and the covering step's value at checkpoints), the uncalibrated scale "
+    "exactly one; returned covariances = unit covariances x scale^2. Equivariance: fixed-grid and adaptive reruns with base "
+    "scale x 2^k (1e-12 on means, calibrated covariances, scale*c and the full attempt trace) and x non-dyadic c (1e-7).",
+    "Trusted: pdv/refmodel/kalman.py. Precondition (stated in the property's scope): exact initial state, no damping.",
+)
+
 NOT_BUILT_REASON = "check under construction in this session; not yet registered"
 
 
